@@ -261,6 +261,10 @@ func (p *Pools) GenEntry(r *rand.Rand, op *spb.AFTOperation, kind string) {
 	grpNI := func() *wpb.StringValue {
 		switch r.IntN(4) {
 		case 0, 1:
+			if r.IntN(6) == 0 {
+				// the other spelling of "the entry's own instance": the wrapper is there, its value empty
+				return sv("")
+			}
 			return nil
 		default:
 			if len(p.Known) > 0 && r.IntN(8) != 0 {
